@@ -1,6 +1,6 @@
 import DashLive.Model.Calendar
 /-!
-# Model of `DashTiming.calculate_live_params` (dashlive/mpeg/dash/timing.py:95-162)
+# Model of `DashTiming.calculate_live_params` (dashlive/mpeg/dash/timing.py:95-164)
 
 All instants are `Int` **microseconds since 1970-01-01T00:00:00Z** (UTC), all
 `timedelta`s are `Int` microseconds; `timeShiftBufferDepth`, `minimumUpdatePeriod`
